@@ -53,6 +53,69 @@ def condVal (ρ : Env) (arms : List Pat) : Res (Option (Nat × Env)) → Res V
   | .err => .err
   | .panic => .panic
 
+/-! ## the class of KF-nested-emptyset-equal: cases whose specified outcome changes when the empty-set members of
+set literals are ignored (rel's `Equal` confuses `{{1, {}}}` with `{{1}}`: a C01/C02 defect that shows through
+`ExprPattern.Bind`'s `v.Equal(value)`) -/
+
+mutual
+def noEmpty : Lit → Lit
+  | .arr off xs => .arr off (noEmptyOpts xs)
+  | .dict kvs => .dict (noEmptyPairs kvs)
+  | .set xs => .set (noEmptyMembers xs)
+  | .tup kvs => .tup (noEmptyAttrs kvs)
+  | .rel names rows => .rel names (noEmptyRows rows)
+  | l => l
+def noEmptyOpts : List (Option Lit) → List (Option Lit)
+  | [] => []
+  | some x :: r => some (noEmpty x) :: noEmptyOpts r
+  | none :: r => none :: noEmptyOpts r
+def noEmptyPairs : List (Lit × Lit) → List (Lit × Lit)
+  | [] => []
+  | (k, v) :: r => (noEmpty k, noEmpty v) :: noEmptyPairs r
+/-- members of a set literal: those denoting `{}` are dropped -/
+def noEmptyMembers : List Lit → List Lit
+  | [] => []
+  | x :: r => if decide (x.den = V.none) then noEmptyMembers r else noEmpty x :: noEmptyMembers r
+def noEmptyAttrs : List (String × Lit) → List (String × Lit)
+  | [] => []
+  | (n, v) :: r => (n, noEmpty v) :: noEmptyAttrs r
+def noEmptyRows : List (List Lit) → List (List Lit)
+  | [] => []
+  | row :: r => noEmptyRow row :: noEmptyRows r
+def noEmptyRow : List Lit → List Lit
+  | [] => []
+  | x :: r => noEmpty x :: noEmptyRow r
+end
+
+def noEmptyExpr : PExpr → PExpr
+  | .lit l => .lit (noEmpty l)
+  | e => e
+
+mutual
+def noEmptyPat : Pat → Pat
+  | .lit l => .lit (noEmpty l)
+  | .exprs es => .exprs (es.map noEmptyExpr)
+  | .arr items => .arr (noEmptyItems items)
+  | .tup attrs => .tup (noEmptyPAttrs attrs)
+  | .dict ents => .dict (noEmptyEnts ents)
+  | .set elts => .set (noEmptyElts elts)
+  | p => p
+def noEmptyItems : List (Pat × Option Lit) → List (Pat × Option Lit)
+  | [] => []
+  | (p, fb) :: r => (noEmptyPat p, fb.map noEmpty) :: noEmptyItems r
+def noEmptyPAttrs : List (String × Pat × Option Lit) → List (String × Pat × Option Lit)
+  | [] => []
+  | (n, p, fb) :: r => (n, noEmptyPat p, fb.map noEmpty) :: noEmptyPAttrs r
+def noEmptyEnts : List (Lit × Pat × Option Lit) → List (Lit × Pat × Option Lit)
+  | [] => []
+  | (k, p, fb) :: r => (noEmpty k, noEmptyPat p, fb.map noEmpty) :: noEmptyEnts r
+def noEmptyElts : List Pat → List Pat
+  | [] => []
+  | p :: r => noEmptyPat p :: noEmptyElts r
+end
+
+def noEmptyScope (ρ : List (String × Lit)) : List (String × Lit) := ρ.map (fun b => (b.1, noEmpty b.2))
+
 /-! ## expected observables and classes -/
 
 /-- a pattern that does not compile at all (duplicate tuple fields): every program with it is an error -/
@@ -82,17 +145,26 @@ def topKind : Pat → String
 def outcomeKind (s : String) : String :=
   if s == "error" then "nomatch" else if s == "{}" then "none" else "match"
 
+/-- does the outcome (match / no match) depend on empty-set members of set literals? -/
+def emptySensitive (ρ : List (String × Lit)) (ps : List Pat) (v : Lit) : Bool :=
+  ps.any (fun p =>
+    (Spec.bind (denScope ρ) p v.den).isSome != (Spec.bind (denScope (noEmptyScope ρ)) (noEmptyPat p) (noEmpty v).den).isSome)
+
+def classify' (ρ : List (String × Lit)) (ps : List Pat) (v : Lit) (isCond : Bool) (m s : String) : String :=
+  let c := classify ps isCond m s
+  if c == "good" && m == s && emptySensitive ρ ps v then "KF-nested-emptyset-equal" else c
+
 def mkLet (id : String) (fn : Bool) (ρ : List (String × Lit)) (p : Pat) (v : Lit) (tag : String := "") : Case :=
   let m := renderV (modelLet (denScope ρ) p v.den)
   let s := renderV (specLet (denScope ρ) p v.den)
-  { id := id, cls := classify [p] false m s, kind := "eval",
+  { id := id, cls := classify' ρ [p] v false m s, kind := "eval",
     stratum := (if fn then "fn/" else "let/") ++ topKind p ++ "/" ++ outcomeKind s ++ tag,
     model := m, spec := s, payload := [if fn then fnSrc ρ p v else letSrc ρ p v] }
 
 def mkCond (id : String) (ρ : List (String × Lit)) (arms : List Pat) (v : Lit) (tag : String := "") : Case :=
   let m := renderV (modelCond (denScope ρ) arms v.den)
   let s := renderV (specCond (denScope ρ) arms v.den)
-  { id := id, cls := classify arms true m s, kind := "eval",
+  { id := id, cls := classify' ρ arms v true m s, kind := "eval",
     stratum := "cond/" ++ outcomeKind s ++ tag, model := m, spec := s, payload := [condSrc ρ arms v] }
 
 /-! ## patterns from values -/
@@ -503,6 +575,9 @@ def corpus : List Case :=
     mkLet "C09-corpus-18" false [] (.set [.arr [nm "x"], .lit (nl 2)]) (.set [la [nl 1], nl 2]),
     mkCond "C09-corpus-19" [] [.exprs [.var "zz"], .name "_"] (nl 5),
     mkCond "C09-corpus-20" [] [.arr [(.name "a", some (nl 1)), (.name "b", some (nl 2))], .name "_"] (la [nl 1]),
+    mkLet "C09-corpus-28" false [] (.exprs [.lit (.set [.set [nl 1, .set []]])]) (.set [.set [nl 1]]),
+    mkLet "C09-corpus-29" false [] (.arr [(.exprs [.lit (.set [.set [nl 1, .set []], nl 3])], none)])
+      (la [.set [.set [nl 1], nl 3]]),
     -- documentation examples
     mkLet "C09-corpus-21" false [] (.arr [nm "x", (.rest "t", none), nm "y"]) (la [nl 1, nl 2, nl 3, nl 4, nl 5, nl 6]),
     mkLet "C09-corpus-22" false []
